@@ -1,7 +1,7 @@
 """C03 - function / method round trip."""
 from vf.props import rt_props
 
-KEYS = ["doctrans.docstring_parsers:_infer_default", "doctrans.emitter_utils:to_docstring", "vf.contracts.laws:function_body_roundtrip", "vf.contracts.laws:function_signature_roundtrip", "doctrans.parse:function", "doctrans.emit:function", "doctrans.docstring_parsers:_set_name_and_type", "doctrans.parser_utils:_interpolate_return", "doctrans.pure_utils:paren_wrap_code", "doctrans.docstring_utils:emit_param_str", "doctrans.docstring_parsers:_set_param_values", "doctrans.ast_utils:get_function_type", "doctrans.ast_utils:set_value", "doctrans.emitter_utils:get_internal_body",
+KEYS = ["doctrans.docstring_parsers:_infer_default", "doctrans.emitter_utils:to_docstring", "vf.contracts.laws:function_body_roundtrip", "vf.contracts.laws:function_roundtrip_documented", "vf.contracts.laws:function_signature_roundtrip", "doctrans.parse:function", "doctrans.emit:function", "doctrans.docstring_parsers:_set_name_and_type", "doctrans.parser_utils:_interpolate_return", "doctrans.pure_utils:paren_wrap_code", "doctrans.docstring_utils:emit_param_str", "doctrans.docstring_parsers:_set_param_values", "doctrans.ast_utils:get_function_type", "doctrans.ast_utils:set_value", "doctrans.emitter_utils:get_internal_body",
         "doctrans.docstring_parsers:parse_docstring", "doctrans.defaults_utils:set_default_doc"]
 
 
